@@ -1,5 +1,6 @@
 """Which harness modules decide which property."""
 PROPERTIES = {
+    "C16": ["harness.C16_leaf", "harness.C16_numeric"],
     "C11": ["harness.C11_visitor"],
     "C01": ["harness.C01_total"],
     "C08": ["harness.C08_roundtrip"],
